@@ -11,6 +11,7 @@ class Engine(Core, ExprMixin, CallMixin, BuiltinMixin, StmtMixin):
     def __init__(self, world, contracts, stubs, **kw):
         Core.__init__(self, world, contracts, stubs, **kw)
         self._loop_ord = {}
+        self.join_paths = True
 
     def call_value(self, st, callee, pos, kw, node=None):
         if isinstance(callee, SLocalFunc):
